@@ -141,6 +141,10 @@ Theorem C02_components_sparse_same (Aw Ax Ay Az : rmat) :
   gen_q2c_sparse_0 C Aw Ax Ay Az = gen_q2c_0 C Aw Ax Ay Az /\ gen_q2c_sparse_1 C Aw Ax Ay Az = gen_q2c_1 C Aw Ax Ay Az /\
   gen_q2c_sparse_2 C Aw Ax Ay Az = gen_q2c_2 C Aw Ax Ay Az /\ gen_q2c_sparse_3 C Aw Ax Ay Az = gen_q2c_3 C Aw Ax Ay Az.
 Proof. repeat split; reflexivity. Qed.
+(* planes that are handed over already split come back unchanged and in the same order *)
+Theorem C02_components_presplit_identity (A0 A1 A2 A3 : rmat) :
+  gen_q2c_tuple_0 C A0 A1 A2 A3 = A0 /\ gen_q2c_tuple_1 C A0 A1 A2 A3 = A1 /\ gen_q2c_tuple_2 C A0 A1 A2 A3 = A2 /\ gen_q2c_tuple_3 C A0 A1 A2 A3 = A3.
+Proof. repeat split; reflexivity. Qed.
 End P.
 
 Print Assumptions C02_real_expand_is_interleaved_blocks.
@@ -165,3 +169,4 @@ Print Assumptions C02_adjoint_herm_is_conj_transpose.
 Print Assumptions C02_adjoint_frob2.
 Print Assumptions C02_split_merge_lossless.
 Print Assumptions C02_components_roundtrip.
+Print Assumptions C02_components_presplit_identity.
